@@ -72,6 +72,13 @@ func runC01(rep *Report, r *Rng, tier string) {
 		c := &IdxCase{Data: d, Writer: "mem", Cache: -1, Queries: []QCase{{E: &Ex{Op: "E", C: hx("a"), V: hx("b\x00c")}}, {E: &Ex{Op: "E", C: hx("a\x00b"), V: hx("c")}}}}
 		runIdxCase(o, c, rep, flagsFor("C01"))
 	}
+	// corpus: pairs with equal column+value concatenation must stay apart (the 0x00 separator of the value index)
+	for _, w := range writers {
+		d := &DataSpec{Rows: [][]string{{hx("a"), hx("bx")}, {hx("ab"), hx("x")}, {hx("a"), hx("b"), hx("ab"), hx("")}, {hx("ab"), hx("x"), hx("a"), hx("c")}}}
+		E := func(c, v string) *Ex { return &Ex{Op: "E", C: hx(c), V: hx(v)} }
+		c := &IdxCase{Data: d, Writer: w, Cache: -1, Queries: []QCase{{E: E("a", "bx")}, {E: E("ab", "x")}, {E: E("a", "b")}, {E: E("ab", "")}, {E: &Ex{Op: "N", Kids: []*Ex{E("ab", "x")}}, GB: []string{hx("a")}}}}
+		runIdxCase(o, c, rep, flagsFor("C01"))
+	}
 	sizes := []int{1000, 4096}
 	if tier == "thorough" {
 		sizes = append(boundarySizes, 150000)
@@ -181,6 +188,9 @@ func runC08(rep *Report, r *Rng, tier string) {
 		c := genIdxCase(r, d, 8, 3, true, true)
 		for qi := range c.Queries {
 			c.Queries[qi].Repeat = 1 + r.Intn(4)
+		}
+		if r.Chance(2, 3) {
+			c.Other = genDataSpec(r, 200, false) // overlapping but different columns: some queries fail there
 		}
 		rep.Sample0(c)
 		runIdxCase(o, c, rep, flagsFor("C08"))
